@@ -5,7 +5,9 @@
 (*   crates/types/src/blockchain/header.rs, block.rs           block id, validate_transactions           *)
 (* A valid block at height 5 on a fixed parent chain (heights 0..4) is built for one of the consensus    *)
 (* configurations of the code (PoA single key, PoAV2 with a key schedule); `Mutate` applies one          *)
-(* single-field mutation, optionally followed by the adversary's repairs (fix level):                    *)
+(* single-field mutation, `Mutate2` every PAIR of header-field mutations on distinct fields (a rule that *)
+(* is only consulted when another field is unchanged must not hide), optionally followed by the          *)
+(* adversary's repairs (fix level):                                                                      *)
 (*   0 raw   1 + transaction root/count recomputed   2 + application hash recomputed                     *)
 (*   3 + re-signed with the adversary's key   4 = 2 + re-signed with the authority's key for that height *)
 (*   (a faulty or malicious authority: the field rules must hold for correctly signed blocks too).       *)
@@ -19,7 +21,7 @@ EXTENDS Integers, Sequences, TLC
 VARIABLES kind,        \* consensus configuration ("none" before New)
           blk,         \* the block under test
           sched,       \* key schedule of the verifier: [genesis |-> key, ov |-> set of <<height, key>>]
-          mut,         \* the mutation that produced blk: [f, v, fix]
+          mut,         \* the mutation that produced blk: [f, v, f2, v2, fix]  (f2 = "none" for a single one)
           vf, vc, te,  \* verdicts: verify_block_fields reason, verify_consensus, validate_transactions
           idc,         \* block id differs from the valid block's id
           same,        \* block (entity and seal) and verifier configuration are those of the valid case
@@ -132,9 +134,10 @@ Raw(b, f, v) ==
                                             [] v = 3 -> Sig(b.sig.key, <<"other message">>)]
     [] f = "seal"     -> [b EXCEPT !.seal = "Genesis"]
     [] f = "sched"    -> b
-Fixed(b, f, fix, s) ==
-  LET b1 == IF fix >= 1 /\ f \in TxMuts THEN [b EXCEPT !.txRoot = Root(b.txs), !.txCount = Len(b.txs)] ELSE b
-      b2 == IF fix >= 2 /\ f \notin ConsMuts THEN [b1 EXCEPT !.appHash = HApp(b1)] ELSE b1
+\* F = the set of mutated fields
+Fixed(b, F, fix, s) ==
+  LET b1 == IF fix >= 1 /\ F \cap TxMuts # {} THEN [b EXCEPT !.txRoot = Root(b.txs), !.txCount = Len(b.txs)] ELSE b
+      b2 == IF fix >= 2 /\ "appHash" \notin F THEN [b1 EXCEPT !.appHash = HApp(b1)] ELSE b1
   IN IF fix = 3 THEN [b2 EXCEPT !.sig = Sig("KA", Id(b2))]
      ELSE IF fix = 4 THEN [b2 EXCEPT !.sig = Sig(KeyFor(s, b2.height), Id(b2))] ELSE b2
 \* "sched": the schedule entry that applies to the block's height names another key
@@ -145,7 +148,14 @@ SchedMut(s, h) ==
        [s EXCEPT !.ov = (s.ov \ {top}) \cup {<<top[1], "KA">>}]
 
 NoBlock == [height |-> -1]
-NoMut == [f |-> "none", v |-> 0, fix |-> 0]
+NoMut == [f |-> "none", v |-> 0, f2 |-> "none", v2 |-> 0, fix |-> 0]
+\* pairs of header-field mutations on two distinct fields (unordered: the first field name is the smaller one)
+HeaderMuts == {m \in Mutations : m[1] \in AppMuts \cup ConsMuts}
+FieldOrder == <<"height", "prevRoot", "time", "appHash", "da", "cpv", "stf", "msgCount", "msgRoot", "evRoot",
+                "txRoot", "txCount">>
+Pos(f) == CHOOSE i \in 1..Len(FieldOrder) : FieldOrder[i] = f
+Pairs == {p \in HeaderMuts \X HeaderMuts : Pos(p[1][1]) < Pos(p[2][1])}
+FixLevels2(f, f2) == IF {f, f2} \subseteq ConsMuts THEN {0, 3, 4} ELSE {0, 2, 3, 4}
 Init == /\ kind = "none" /\ blk = NoBlock /\ sched = [genesis |-> "none", ov |-> {}] /\ mut = NoMut
         /\ vf = "none" /\ vc = FALSE /\ te = FALSE /\ idc = FALSE /\ same = TRUE
         /\ act = [name |-> "Init"]
@@ -163,14 +173,23 @@ New(k) ==
 
 Mutate(f, v, fix) ==
   /\ kind # "none" /\ mut = NoMut
-  /\ LET b == Fixed(Raw(blk, f, v), f, fix, sched)
+  /\ LET b == Fixed(Raw(blk, f, v), {f}, fix, sched)
          s == IF f = "sched" THEN SchedMut(sched, blk.height) ELSE sched IN
        /\ blk' = b /\ sched' = s /\ Judge(b, s, kind)
-  /\ mut' = [f |-> f, v |-> v, fix |-> fix] /\ kind' = kind
+  /\ mut' = [f |-> f, v |-> v, f2 |-> "none", v2 |-> 0, fix |-> fix] /\ kind' = kind
   /\ act' = [name |-> "Mutate", f |-> f, v |-> v, fix |-> fix]
+
+Mutate2(f, v, f2, v2, fix) ==
+  /\ kind # "none" /\ mut = NoMut
+  /\ LET b == Fixed(Raw(Raw(blk, f, v), f2, v2), {f, f2}, fix, sched) IN
+       /\ blk' = b /\ sched' = sched /\ Judge(b, sched, kind)
+  /\ mut' = [f |-> f, v |-> v, f2 |-> f2, v2 |-> v2, fix |-> fix] /\ kind' = kind
+  /\ act' = [name |-> "Mutate2", f |-> f, v |-> v, f2 |-> f2, v2 |-> v2, fix |-> fix]
 
 Next == \/ \E k \in Kinds : New(k)
         \/ \E m \in Mutations : \E fix \in FixLevels(m[1]) : Mutate(m[1], m[2], fix)
+        \/ \E p \in Pairs : \E fix \in FixLevels2(p[1][1], p[2][1]) :
+             Mutate2(p[1][1], p[1][2], p[2][1], p[2][2], fix)
 Spec == Init /\ [][Next]_<<vars, act>>
 
 (* ---- the property -------------------------------------------------------------------------------------*)
